@@ -729,3 +729,104 @@ Proof.
     rewrite E2. eexists _, _, _, _. split; [reflexivity|].
     cbn [rot_n]. replace (N.of_nat (48 + S j)) with (Z.to_N (48 + Z.of_nat (S j))) by lia. exact I2.
 Qed.
+
+(* ------------------------------------------------------------------ reg_put *)
+(* (ln || strchr(s, '\n')) && (!c || isalpha(c)) *)
+Definition put_test : expr := match fn_body cf_reg_put with SSeq _ (SSeq (SIf e _ _) _) => e | _ => EConst 0 end.
+Definition shifts (c ln : Z) (s : bytes) : bool := (negb (ln =? 0) || RegDefs.has_nl s) && ((c =? 0) || ct_isalpha c).
+
+Lemma has_nl_find s : RegDefs.has_nl s = match find_byte 10 s with Some _ => true | None => false end.
+Proof.
+  unfold RegDefs.has_nl. induction s as [|x s IH]; [reflexivity|]. cbn [existsb find_byte]. rewrite N.eqb_sym.
+  destruct (x =? 10)%N; [reflexivity|]. cbn [orb]. rewrite IH. destruct (find_byte 10 s); reflexivity.
+Qed.
+Lemma put_test_ok call m c bs (t : bytes) (o : nat) ln v3 v4 v5 : 0 <= c < 256 -> str_at m bs t -> nonul t -> (o <= length t)%nat ->
+  eval call put_test (mkst [VInt c; VPtr bs (Z.of_nat o); VInt ln; v3; v4; v5] m)
+  = Ok (VInt (b2z (shifts c ln (skipn o t))), mkst [VInt c; VPtr bs (Z.of_nat o); VInt ln; v3; v4; v5] m).
+Proof.
+  intros Hc Hs Hn Ho. unfold put_test. cbn [fn_body cf_reg_put]. unfold shifts. xcbn.
+  destruct (Z.eqb_spec ln 0) as [->|Hne]; cbn [negb orb andb]; xstep.
+  - change (VInt 10) with (VInt (Z.of_N 10)). rewrite (builtin_strchr m bs t o 10 Hs Hn Ho) by lia. xstep.
+    rewrite has_nl_find. destruct (find_byte 10 (skipn o t)); xstep; [|reflexivity].
+    destruct (Z.eqb_spec c 0); xstep; [reflexivity|]. rewrite (builtin_isalpha m c Hc). xstep.
+    destruct (ct_isalpha c); reflexivity.
+  - destruct (Z.eqb_spec c 0); xstep; [reflexivity|]. rewrite (builtin_isalpha m c Hc). xstep.
+    destruct (ct_isalpha c); reflexivity.
+Qed.
+
+(* the shift and the store into register 1 leave every register outside '1'..'9' alone *)
+Lemma putraw_other R c s l k : k <> c_tolower c -> RegDefs.reg_putraw R c s l k = R k.
+Proof. intro H. unfold RegDefs.reg_putraw, RegDefs.upd. destruct (N.eqb_spec k (c_tolower c)); [contradiction|reflexivity]. Qed.
+Lemma tolower_digit c : (c < 65)%N -> c_tolower c = c.
+Proof. intro H. unfold c_tolower, c_isupper. destruct (N.leb_spec 65 c); [lia|reflexivity]. Qed.
+Lemma rot_n_other i R k : (i <= 8)%nat -> (k < 50 \/ 57 < k)%N -> rot_n i R k = R k.
+Proof.
+  revert R; induction i as [|j IH]; intros R Hi Hk; [reflexivity|]. cbn [rot_n]. rewrite IH by lia.
+  unfold RegDefs.rot_step. destruct (RegDefs.reg_get R (N.of_nat (48 + S j))) as [[s l]|]; [|reflexivity].
+  apply putraw_other. rewrite tolower_digit by lia. lia.
+Qed.
+Lemma pre_of_shift R c s l : 0 <= c < 256 -> pre_of (RegDefs.reg_putraw (rot_n 8 R) (Z.to_N 49) s l) c = pre_of R c.
+Proof.
+  intro Hc. unfold pre_of. destruct (ct_isupper c) eqn:E; [|reflexivity].
+  unfold ct_isupper in E. apply andb_prop in E. destruct E as [E1 E2]. apply Z.leb_le in E1, E2.
+  assert (Hl : lowz c = c + 32) by (unfold lowz, ct_isupper; destruct (Z.leb_spec 65 c); destruct (Z.leb_spec c 90); cbn [andb]; lia).
+  rewrite putraw_other by (rewrite tolower_digit by lia; lia). rewrite rot_n_other by lia. reflexivity.
+Qed.
+Lemma model_put R c s ln : 0 <= c < 256 ->
+  RegDefs.reg_put R (Z.to_N c) s (negb (ln =? 0)) =
+  RegDefs.reg_putraw (if shifts c ln s then RegDefs.reg_putraw (rot_n 8 R) (Z.to_N 49) s (negb (ln =? 0)) else R) (Z.to_N c) s (negb (ln =? 0)).
+Proof.
+  intro Hc. unfold RegDefs.reg_put, shifts. rewrite isalpha_N by lia. rewrite rotate_rot_n.
+  replace (Z.to_N c =? 0)%N with (c =? 0); [reflexivity|].
+  destruct (Z.eqb_spec c 0); destruct (N.eqb_spec (Z.to_N c) 0); try reflexivity; lia.
+Qed.
+Lemma str_fits_app_r (a b : bytes) : str_fits (a ++ b) -> str_fits b.
+Proof. unfold str_fits. rewrite app_length. lia. Qed.
+
+Theorem tr_reg_put m pb lb R c bs (t : bytes) (o : nat) ln d fuel :
+  regs_at m pb lb R -> 0 <= c < 256 -> str_at m bs t -> nonul t -> (o <= length t)%nat ->
+  bs <> G_reg__bufs -> bs <> G_lnmode -> (forall k o', (k < 256)%nat -> cellp pb k <> VPtr bs o') ->
+  int_ok ln -> str_fits (pre_of R c ++ skipn o t) -> (9 <= fuel)%nat ->
+  exists m' pb' lb',
+    callf cprog fuel (S (S (S d))) F_reg_put [VInt c; VPtr bs (Z.of_nat o); VInt ln] m = Ok (VUndef, m') /\
+    regs_at m' pb' lb' (RegDefs.reg_put R (Z.to_N c) (skipn o t) (negb (ln =? 0))) /\
+    fr (length m) m pb m' pb' /\ (exists v, nth_error m' (length m) = Some [v]).
+Proof.
+  intros H Hc Hs Hn Ho Nb1 Nb2 Hun Hln Hfit Hfuel.
+  assert (Hbs : (bs < length m)%nat) by (apply nth_error_Some; unfold str_at in Hs; congruence).
+  set (s := skipn o t) in *. assert (Hsn : nonul s) by (apply Forall_skipn'; exact Hn).
+  rewrite (model_put R c s ln Hc).
+  enter F_reg_put cf_reg_put. rewrite exec_seq, exec_expr. xcbn. rewrite malloc_ok by lia. xcbn.
+  change (repeat VUndef (Z.to_nat 1)) with [VUndef].
+  pose proof (inv_init m pb lb R bs t VUndef H Hs Hun) as I0.
+  set (m0 := m ++ [[VUndef]]) in *.
+  rewrite exec_seq, exec_if.
+  match goal with |- context [eval ?call ?e ?st] => change e with put_test end.
+  rewrite (put_test_ok _ m0 c bs t o ln _ _ _ Hc (iv_arg _ _ _ _ _ _ _ _ I0) Hn Ho). fold s. rewrite truth_b2z.
+  destruct (shifts c ln s) eqn:Esh.
+  - xstep.
+    match goal with |- context [exec ?call ?f (SFor ?a ?b ?bd) ?st] => change (SFor a b bd) with put_loop end.
+    change (VInt 8) with (VInt (Z.of_nat 8)).
+    destruct (put_loop_ok m pb lb R bs t c (VPtr bs (Z.of_nat o)) ln d fuel H Hbs Nb1 Nb2 8%nat (le_n 8) fuel m0 pb lb R VUndef ltac:(lia) I0)
+      as (m1 & pb1 & lb1 & v5 & E1 & I1).
+    rewrite E1. xstep.
+    assert (Ep1 : pre_of (rot_n 8 R) 49 = []) by (unfold pre_of; rewrite not_upper by lia; reflexivity).
+    assert (Hf1 : str_fits (pre_of (rot_n 8 R) 49 ++ s)) by (rewrite Ep1; exact (str_fits_app_r _ _ Hfit)).
+    rewrite (tr_reg_putraw m1 pb1 lb1 (rot_n 8 R) 49 bs t o ln (S d) fuel (iv_rep _ _ _ _ _ _ _ _ I1) ltac:(lia)
+               (iv_arg _ _ _ _ _ _ _ _ I1) Hn Ho Nb1 Nb2 Hln Hf1).
+    pose proof (inv_putraw m pb lb R bs t m1 pb1 lb1 (rot_n 8 R) 49 s ln H Hbs Nb1 Nb2 I1 ltac:(lia) Hsn Hln Hf1) as I2.
+    fold s. xstep.
+    set (R2 := RegDefs.reg_putraw (rot_n 8 R) (Z.to_N 49) s (negb (ln =? 0))) in *.
+    assert (Hf2 : str_fits (pre_of R2 c ++ s)) by (unfold R2; rewrite pre_of_shift by exact Hc; exact Hfit).
+    rewrite (tr_reg_putraw _ _ _ R2 c bs t o ln (S d) fuel (iv_rep _ _ _ _ _ _ _ _ I2) Hc
+               (iv_arg _ _ _ _ _ _ _ _ I2) Hn Ho Nb1 Nb2 Hln Hf2).
+    pose proof (inv_putraw m pb lb R bs t _ _ _ R2 c s ln H Hbs Nb1 Nb2 I2 Hc Hsn Hln Hf2) as I3.
+    fold s. eexists _, _, _. split; [reflexivity|].
+    split; [exact (iv_rep _ _ _ _ _ _ _ _ I3)|]. split; [exact (iv_fr _ _ _ _ _ _ _ _ I3)|exact (iv_k0 _ _ _ _ _ _ _ _ I3)].
+  - xstep.
+    rewrite (tr_reg_putraw _ _ _ R c bs t o ln (S d) fuel (iv_rep _ _ _ _ _ _ _ _ I0) Hc
+               (iv_arg _ _ _ _ _ _ _ _ I0) Hn Ho Nb1 Nb2 Hln Hfit).
+    pose proof (inv_putraw m pb lb R bs t _ _ _ R c s ln H Hbs Nb1 Nb2 I0 Hc Hsn Hln Hfit) as I3.
+    fold s. eexists _, _, _. split; [reflexivity|].
+    split; [exact (iv_rep _ _ _ _ _ _ _ _ I3)|]. split; [exact (iv_fr _ _ _ _ _ _ _ _ I3)|exact (iv_k0 _ _ _ _ _ _ _ _ I3)].
+Qed.
